@@ -535,12 +535,21 @@ impl Writer {
                 // write the KeyDir entry to the hint file for fast recovery. This comes before the
                 // KeyDir is updated: if it fails, the copy is in no hint file and the entry must
                 // keep pointing to the source file, which is then not removed
-                merge_hintfile_writer.append(&HintFileEntry {
+                if let Err(e) = merge_hintfile_writer.append(&HintFileEntry {
                     tstamp: keydir_entry.tstamp,
                     len: nbytes,
                     pos: merge_pos,
                     key: keydir_entry.key().clone(),
-                })?;
+                }) {
+                    // The copy is in the merge data file already but nothing will ever point to
+                    // it. It has to be known to the statistics as a dead entry, a file that the
+                    // statistics do not know about is never merged and its stale copy could
+                    // outlive a later delete of the key
+                    let mut stats = self.ctx.stats.entry(merge_fileid).or_default();
+                    stats.dead_keys += 1;
+                    stats.dead_bytes += nbytes;
+                    return Err(e.into());
+                }
 
                 // update keydir so it points to the merge data file
                 keydir_entry.fileid = merge_fileid;
